@@ -125,3 +125,6 @@ def run(ctx):
     ctx.extra["random_graph_events"] = len(events)
     if events:
         ctx.sample({"random_event": events[len(events) // 3]}, limit=8)
+    # the priority queue under the algorithm (growth of the specification): PrioDict.tla / PrioDictTrace.tla
+    from drivers import prio_common
+    prio_common.run(ctx, quick)
